@@ -744,6 +744,28 @@ func TestVerifC17RouteSync(t *testing.T) {
 				h.faultsSinceGood++
 				h.ops = append(h.ops, "i")
 			},
+			"ifaceFlap": func(t *rapid.T) {
+				// The link bounces (down, then up again) between two applies; the kernel drops
+				// the routes via it, both events are delivered.
+				var up []string
+				for _, n := range c17Ifaces {
+					if l, ok := h.dp.NameToLink[n]; ok && l.LinkAttrs.RawFlags&unix.IFF_RUNNING != 0 {
+						up = append(up, n)
+					}
+				}
+				if len(up) == 0 {
+					t.Skip("no interface up")
+				}
+				name := rapid.SampledFrom(up).Draw(t, "iface")
+				idx := h.dp.NameToLink[name].LinkAttrs.Index
+				h.removeRoutesVia(idx)
+				h.deliverPending()
+				h.rt.OnIfaceStateChanged(name, idx, ifacemonitor.StateDown)
+				h.rt.OnIfaceStateChanged(name, idx, ifacemonitor.StateUp)
+				h.classes["iface-flap"] = true
+				h.faultsSinceGood++
+				h.ops = append(h.ops, "b")
+			},
 			"deliverIfaceEvents": func(t *rapid.T) {
 				h.deliverPending()
 				h.ops = append(h.ops, "d")
